@@ -203,6 +203,7 @@ type HeapSpace struct {
 	final map[string]bool   // keys never havocked by calls
 	private map[string]bool // keys only their type's writer methods may change
 	onHavoc func()
+	readLog map[string]bool // when non-nil: keys read are recorded (footprint computation)
 	ignoreCallHavoc bool // evaluate as if calls to unknown code changed nothing (callees preserve invariants)
 	onHavocKey func(string)
 }
@@ -278,6 +279,9 @@ func (hs *HeapSpace) merge(preds []*Heap, conds []string) *Heap {
 }
 
 func (hs *HeapSpace) read(h *Heap, key string) string {
+	if hs.readLog != nil {
+		hs.readLog[key] = true
+	}
 	srt, ok := hs.sorts[key]
 	if !ok {
 		panic("heap key not registered: " + key)
